@@ -11,6 +11,9 @@ def to_tag(d):
         return ["int", d]
     if isinstance(d, float):
         return ["float", repr(d)]
+    if isinstance(d, complex):
+        re_, im = d.real + 0.0, d.imag + 0.0
+        return ["complex", "%r%s%rj" % (re_, "+" if im >= 0 else "-", abs(im))]
     if isinstance(d, str):
         return ["code", d] if (d.startswith("```") and d.endswith("```") and len(d) >= 6) else ["str", d]
     return ["other", repr(d)]
@@ -22,6 +25,8 @@ def from_tag(t):
         return NONE_STR
     if k == "float":
         return float(t[1])
+    if k == "complex":
+        return complex(t[1])
     return t[1]
 
 
